@@ -131,3 +131,26 @@ pub fn t_fn_item(x: u128, v: Vec<String>) -> (u128, Vec<String>) { (apply2(inc, 
 // Option values compared with ==: structural
 fn kind_of(x: Option<u128>) -> Option<u8> { match x { Some(v) if v > 9 => Some(2), Some(_) => Some(1), None => None } }
 pub fn t_option_eq(x: Option<u128>) -> bool { kind_of(x) == Some(2) }
+
+// table-driven validation: adaptors over a known array run the closures element by element; range tests fork like comparisons
+pub fn t_table(name: String, base: String, p: u128) -> Vec<&'static str> {
+    let mut bad: Vec<&'static str> = vec![];
+    let req = [("name", &name), ("base", &base)];
+    bad.extend(req.iter().filter(|(_, v)| v.is_empty()).map(|(f, _)| *f));
+    if !(0..=18).contains(&p) { bad.push("precision"); }
+    bad
+}
+pub fn t_any_true(v: Vec<u128>) -> bool { !v.iter().any(|_| true) }
+
+// a merged boolean helper leaves a disjunctive fact; later tests of the same options must respect it
+fn both_or_neither(a: &Option<u128>, b: &Option<u128>) -> bool { a.is_some() == b.is_some() }
+pub fn t_or_fact(a: Option<u128>, b: Option<u128>) -> u128 {
+    if !both_or_neither(&a, &b) { return 0; }
+    match (a, b) { (Some(x), Some(y)) => x + y, (None, None) => 1, _ => 99 }
+}
+
+// provided trait method calling a required one: resolved through the caller's substitution
+pub trait Checked { fn problems(&self) -> Vec<u8>; fn check(&self) -> Result<(), u8> { let p = self.problems(); if p.is_empty() { Ok(()) } else { Err(p[0]) } } }
+pub struct Req { pub n: u128 }
+impl Checked for Req { fn problems(&self) -> Vec<u8> { let mut v = vec![]; if self.n < 1 { v.push(4u8); } v } }
+pub fn t_provided(r: Req) -> Result<(), u8> { r.check() }
